@@ -190,6 +190,29 @@ func c15MirrorW(ctx *Ctx, v cty.Value, t cty.Type, b []byte) {
 		ctx.Fail(Failure{Site: "mirror", Sig: "number-text-is-not-the-value:" + m.numCause, What: "a number in Marshal's output, read exactly and rounded to the number's own precision, is not the number of the value",
 			Input: in, GoLit: c15GoLit(v, t), Outcome: string(b)})
 	}
+	// "the bytes are valid JSON": encoding/json's own validity scanner, besides the token lexer
+	if !json.Valid(b) {
+		ctx.Fail(Failure{Site: "valid-json", Sig: "marshal-output-not-json", What: "Marshal produced bytes that encoding/json's validity scanner rejects", Input: in, GoLit: c15GoLit(v, t), Outcome: string(b)})
+	}
+	// simple.go: SimpleJSONValue.MarshalJSON is Marshal against the value's own type
+	if t.Equals(v.Type()) {
+		var sb []byte
+		var serr error
+		p, _ := try(func() { sb, serr = ctyjson.SimpleJSONValue{Value: v}.MarshalJSON() })
+		impl := c15Outcome(p, serr)
+		if impl == "ok" {
+			if tree := jsonTreeOfBytes(sb); tree != "BAD" {
+				impl = "ok " + tree
+			}
+		}
+		tb := newC15tbl()
+		tb.addVal(v)
+		ctx.Add("json.simplemarshal", impl, tb.String(), encVal(v))
+		ctx.Tag("simplemarshal")
+		if p || serr != nil || !bytes.Equal(sb, b) {
+			ctx.Fail(Failure{Site: "simple-marshal", Sig: "differs-from-marshal-against-own-type", What: "SimpleJSONValue.MarshalJSON is not Marshal(v, v.Type())", Input: in, GoLit: c15GoLit(v, t), Outcome: string(sb)})
+		}
+	}
 	// Lean's specification of the same clause on the REAL token tree (set-free values)
 	if !strings.Contains(encTy(v.Type()), "(E ") {
 		if tree := jsonTreeOfBytes(b); tree != "BAD" {
